@@ -121,7 +121,7 @@ func decodeAPSP(data []byte, p gopacket.PacketBuilder) error {
 		return errors.New("decodeAPSP() failed, no data")
 	}
 	l := APSP{}
-	if err := l.DecodeFromBytes(data, gopacket.NilDecodeFeedback); err != nil {
+	if err := l.DecodeFromBytes(data, p); err != nil {
 		return err
 	}
 	p.AddLayer(l)
